@@ -54,6 +54,9 @@ type Sim struct {
 	alive       []bool
 	hist        []blockRec
 	allRemember bool
+	// edgeBias (many-tree forests): half of the draws of pickPool come from the last 24 live
+	// leaves, i.e. from the small trees at the right edge
+	edgeBias bool
 }
 
 func newMap(full bool, rows uint8) *u.MapPollard {
